@@ -27,7 +27,6 @@ def collect_loop(rev, var, ty):
 MUT_SELF = [{'where': 'sig', 'rule': 'R2', 'find': 'mut self', 'replace': 'self'},
             {'rule': 'R2', 'regex': r'\bself\b', 'replace': 'self_', 'count': '*'},
             {'rule': 'R2', 'regex': r'\A\s*\{', 'replace': '{ let mut self_ = self;'}]
-N0 = 'pre.len()'
 BUILD_LOOPS = {
     # promises: one per page, consecutive numbers from the old length on
     1: {'invariant': [
@@ -76,18 +75,58 @@ BUILD_RW = [
      'replace': 'proof { assert(update.objs()[pre.len() + k_] == s0[pre.len() + k_]); } update.fulfill('},
     # R7: `Default::default()` of the Lazy annotations entry (trait-static call with an inferred Self)
     {'rule': 'R7', 'find': 'annotations: Default::default(),', 'replace': 'annotations: Lazy::default_(),'},
-    {'rule': 'R1', 'find': 'Ok(Catalog {', 'replace': 'let ghost post = update.objs(); let r_ = Catalog {'},
-    {'rule': 'R1', 'regex': r'page_labels: None,\s*\}\)\s*\}\s*\Z',
-     'replace': 'page_labels: None, }; proof { lemma_built(pre, post, bs, r_); } Ok(r_) }'},
+    # R1: the result is named so that the lemma deriving the property-level statement can be called on it
+    {'rule': 'R1', 'regex': r'Ok\(Catalog \{(.*?)\}\)\s*\}\s*\Z',
+     'replace': r'let ghost post = update.objs(); let r_ = Catalog {\1}; proof { lemma_built(pre, post, bs, r_); } Ok(r_) }'},
 ]
 
-CREATE_ENS = lambda obj, who: [
+CREATE_ENS = [
     ('create_frame', 'extends(old(update).objs(), final(update).objs())'),
     ('create_stored', 'r matches Ok(x) ==> x.rc().inner == ref_of(old(update).objs().len() as int) && x.tree() == tree '
                       '&& old(update).objs().len() < final(update).objs().len() <= u64::MAX '
                       '&& final(update).objs()[old(update).objs().len() as int] == Slot::Node(PagesNode::Tree(tree)) '
                       '&& rest_nested(old(update).objs(), final(update).objs(), old(update).objs().len() as int)'),
 ]
+
+
+# ---------------------------------------------------------------------------------------------------------------------
+# Part B helpers (same as units/expansions)
+def lits(*keys):
+    """R1 ghost block: facts that make the key literals pairwise distinct (length, or first differing character)."""
+    out = []
+    facts = set()
+    for k in keys:
+        out.append('reveal_strlit("%s");' % k)
+        facts.add('"%s"@.len() == %d' % (k, len(k)))
+    for a in keys:
+        for b in keys:
+            if a < b and len(a) == len(b):
+                i = [j for j in range(len(a)) if a[j] != b[j]][0]
+                facts.add('"%s"@[%d] == \'%s\'' % (a, i, a[i]))
+                facts.add('"%s"@[%d] == \'%s\'' % (b, i, b[i]))
+    for f in sorted(facts):
+        out.append('assert(%s);' % f)
+    return 'proof { ' + ' '.join(out) + ' }'
+
+
+def body_start(text):
+    return {'rule': 'R1', 'regex': r'\A\s*\{', 'replace': '{ ' + text}
+
+
+# R2: trait dispatch dropped (the method is emitted as an inherent fn)
+PUBFN = {'where': 'sig', 'rule': 'R2', 'regex': r'\Afn ', 'replace': 'pub fn '}
+TYPES = [r'^pub mod object$', r'^mod types$']
+PAGE_KEYS = ['Type', 'Parent', 'Resources', 'MediaBox', 'CropBox', 'TrimBox', 'Contents', 'Rotate', 'Metadata', 'LGIDict', 'VP', 'Annots']
+PT_KEYS = ['Type', 'Parent', 'Kids', 'Count', 'Resources', 'MediaBox', 'CropBox']
+CAT_KEYS = ['Type', 'Version', 'Pages', 'PageLabels', 'Names', 'Dests', 'Outlines', 'AcroForm', 'Metadata', 'StructTreeRoot']
+C0, C1 = 'old(updater).created()', 'final(updater).created()'
+
+
+def to_dict(ty, keys, ensures, extra=()):
+    return {'kind': 'fn', 'file': X, 'container': TYPES + [r'^impl pdf::object::ToDict for %s$' % ty], 'name': 'to_dict',
+            'props': P, 'ensures': ensures,
+            'rewrites': [PUBFN, body_start(lits(*keys))] + list(extra)}
+
 
 UNIT = {
  'name': 'build',
@@ -131,7 +170,7 @@ UNIT = {
       'canary': False,   # trait-impl method: no twin possible
       'ret': 'res', 'ensures': [('from_is_indirect', 'res == MaybeRef::Indirect(r)')]},
   'PagesRc::create': {'kind': 'fn', 'file': T, 'container': r'^impl PagesRc$', 'name': 'create', 'props': P,
-      'ensures': CREATE_ENS('tree', 'PagesRc')},
+      'ensures': CREATE_ENS},
 
   # ---------------------------------------------------------------- CatalogBuilder
   'CatalogBuilder::from_pages': {'kind': 'fn', 'file': B, 'container': r'^impl CatalogBuilder$', 'name': 'from_pages', 'props': P,
@@ -186,5 +225,25 @@ UNIT = {
            'replace': 'let ghost post = self_.storage.objs(); self_.storage.save(&mut trailer)?; '
                       'proof { let ghost w_ = built_file_w(self_.storage.backend@, pre, bs, info0, mid, post, cat0, trailer.size as int); }'},
       ]},
+
+  # ---------------------------------------------------------------- Part B: derived writers (compiler expansion) and PagesRc's own
+  'PagesRc::to_primitive': {'kind': 'fn', 'file': T, 'container': r'^impl ObjectWrite for PagesRc$', 'name': 'to_primitive', 'props': P,
+      'ensures': [('wr_model', 'r == Ok::<Primitive, PdfError>(Primitive::Reference(self.rc().inner))'),
+                  ('wr_frame', 'submap(old(update).created(), final(update).created())')],
+      'rewrites': [PUBFN, {'where': 'sig', 'rule': 'R2', 'find': 'impl Updater', 'replace': 'impl pdf::object::Updater'}]},
+  'Page::to_dict': to_dict('Page', PAGE_KEYS, [
+      ('wr_model', 'r matches Ok(d) ==> page_written(*self, d@, %s, %s)' % (C0, C1)),
+      ('wr_frame', 'submap(%s, %s)' % (C0, C1))],
+      extra=[# '*': a writer that lost the entry must reach the verifier
+             {'rule': 'R1', 'count': '*', 'find': 'dict.insert("Resources", val2);',
+              'replace': 'proof { assert(submap(old(updater).created(), updater.created())); } dict.insert("Resources", val2);'}]),
+  'PageTree::to_dict': to_dict('PageTree', PT_KEYS, [
+      ('wr_model', 'r matches Ok(d) ==> d@ =~= pagetree_dict(*self)'),
+      ('wr_ok', 'r is Err ==> self.parent.wfail() || self.kids.wfail() || self.count.wfail() || self.resources.wfail() '
+                '|| self.media_box.wfail() || self.crop_box.wfail()'),
+      ('wr_frame', 'submap(%s, %s)' % (C0, C1))]),
+  'Catalog::to_dict': to_dict('Catalog', CAT_KEYS, [
+      ('wr_model', 'r matches Ok(d) ==> d@ =~= catalog_dict(*self)'),
+      ('wr_frame', 'submap(%s, %s)' % (C0, C1))]),
  },
 }
